@@ -16,8 +16,6 @@ def intArith : Arith Int where
   pow a b := a ^ b.toNat
   neg a := -a
   fn _ x := x
-  isNeg v := decide (v < 0)
-  abs v := (v.natAbs : Int)
 
 /-- a three-row gate table for the witnesses -/
 def tinyTable : List BuiltinDef :=
